@@ -16,7 +16,7 @@ def rcg(src, src_enc, **opts):
     grammar = {}
     if 'lex_in_grammar' in opts:
        raise ValueError("Not supported for RCG format")
-    with io.open('%s.lex' % src) as lexfile:
+    with io.open('%s.lex' % src, encoding=src_enc) as lexfile:
         for line in lexfile:
             sp = line.strip().split()
             word = sp[0]
@@ -25,7 +25,7 @@ def rcg(src, src_enc, **opts):
                     lexicon[word] = Counter([])
                 for i in range(int(count)):
                     lexicon[word].update([label])
-    with io.open('%s.rcg' % src) as gramfile:
+    with io.open('%s.rcg' % src, encoding=src_enc) as gramfile:
         for line in gramfile:
             line = line.strip().split()
             count = int(line[0].split(':')[1])
